@@ -843,8 +843,13 @@ analyze_function(CallGraphNode cg_node,
       CRAB_VERBOSE_IF(1, get_msg_stream()
                              << "++ Fixpoint reached for recursive function "
                              << cfg.get_func_decl().get_func_name() << "!\n";);
-      // Don't check invariants with the last iteration
-      return nullptr;
+      if (iteration > 0) {
+        // Don't check invariants with the last iteration: the
+        // previous iteration stores them.
+        return nullptr;
+      }
+      // The fixpoint converged in the first iteration (the function
+      // cannot return): nobody else stores its invariants.
     } else {
       CRAB_VERBOSE_IF(1, get_msg_stream()
                              << "++ Widening " << iteration
